@@ -1,15 +1,9 @@
 (* C06 — proofs, part 3: where the lexer stops (the rest is empty or starts
    with a delimiter) and the absence of the one modelled panic site
    (`unreachable!()` in arith.rs). *)
-From Yv Require Import Common.Base C06.Ast C06.Print C06.Lex C06.LexEq C06.Parse C06.ProofsLen.
+From Yv Require Import Common.Base C06.Ast C06.Print C06.Lex C06.SpecLex C06.LexEq C06.Parse C06.ProofsLen.
 Local Open Scope N_scope.
 
-(* the text is empty or starts with a delimiter *)
-Definition stops (d : delim) (r : str) : Prop :=
-  match r with
-  | [] => True
-  | c :: _ => is_delim d c = true
-  end.
 
 Lemma skip_lc_cons_not_lc c s s' :
   skip_lc s = c :: s' -> skip_lc (c :: s') = c :: s'.
@@ -136,7 +130,7 @@ Section LexStop.
     end.
 
   Ltac panicstep eqn :=
-    intros Hp; revert Hp; rewrite eqn; unfold bind; cbv zeta; intros Hp;
+    intros Hp; revert Hp; rewrite eqn; unfold lex_param, lex_suffix, bind; cbv zeta; intros Hp;
     dmall; clean; try discriminate; try paniccontra.
 
   Lemma lex_nopanic : forall f, N_all f.
